@@ -12,6 +12,10 @@ import (
 	log "github.com/sirupsen/logrus"
 )
 
+// udpBufferSize is large enough for any UDP datagram. With a smaller buffer a larger datagram from the proxy
+// client was silently truncated, and a larger datagram from the server made the stream reader fail
+const udpBufferSize = 65536
+
 func RouteUDP(bindFunc func() (*net.UDPConn, error), streamTimeout time.Duration, singleplex bool, newSeshFunc func() *mux.Session) {
 	var sesh *mux.Session
 	localConn, err := bindFunc()
@@ -22,7 +26,7 @@ func RouteUDP(bindFunc func() (*net.UDPConn, error), streamTimeout time.Duration
 	streams := make(map[string]*mux.Stream)
 	var streamsMutex sync.Mutex
 
-	data := make([]byte, 8192)
+	data := make([]byte, udpBufferSize)
 	for {
 		i, addr, err := localConn.ReadFrom(data)
 		if err != nil {
@@ -57,7 +61,7 @@ func RouteUDP(bindFunc func() (*net.UDPConn, error), streamTimeout time.Duration
 
 			proxyAddr := addr
 			go func(stream *mux.Stream, localConn *net.UDPConn) {
-				buf := make([]byte, 8192)
+				buf := make([]byte, udpBufferSize)
 				for {
 					n, err := stream.Read(buf)
 					if err != nil {
